@@ -1,4 +1,4 @@
-\* conformance against the LITERAL behaviour of the pinned tree before fixes/C02_pass0_verdict.patch
+\* conformance against the LITERAL behaviour of the pinned tree before fixes/C02_pass0_declined_exit.patch
 SPECIFICATION TraceSpec
 CONSTANTS
   DevPass0VerdictForgotten = TRUE
